@@ -162,6 +162,23 @@ fn compute_modpow_cost(
     Ok(cost)
 }
 
+/// Verification hooks: the private cost kernels, for out-of-tree harnesses. Never used by clvmr.
+#[cfg(feature = "verif-hooks")]
+pub mod verif_hooks {
+    use super::{Cost, EvalErr};
+    pub fn compute_new_div_cost(a0_len: usize, a1_len: usize) -> Result<u64, EvalErr> {
+        super::compute_new_div_cost(a0_len, a1_len)
+    }
+    pub fn compute_modpow_cost(
+        bsize: usize,
+        esize: usize,
+        msize: usize,
+        new_cost_model: bool,
+    ) -> Result<Cost, EvalErr> {
+        super::compute_modpow_cost(bsize, esize, msize, new_cost_model)
+    }
+}
+
 /// The number of limbs (magnitude bytes) for a BigInt representation.
 ///
 /// This matches `Number::bits().div_ceil(8)` — it counts the magnitude bytes,
